@@ -65,7 +65,7 @@ def decOp : Sexp → Option HeapOp
     | "stringVal", [s] => do pure (.api (.stringVal (← str s)))
     | "boolVal", [b] => do pure (.api (.boolVal (← Sexp.decBool b)))
     | "nullVal", [t] => do pure (.api (.nullVal (← str t)))
-    | "unknownVal", [t] => do pure (.api (.unknownVal (← str t)))
+    | "unknownVal", [t, r] => do pure (.api (.unknownVal (← str t) (← str r)))
     | "listVal", [g] => do pure (.api (.listVal (← nat g)))
     | "tupleVal", [g] => do pure (.api (.tupleVal (← nat g)))
     | "objectVal", [g] => do pure (.api (.objectVal (← nat g)))
@@ -123,6 +123,7 @@ def decOp : Sexp → Option HeapOp
         | _ => none
       pure (.caller (.newTypeMap es))
     | "nilPath", [] => some (.caller .nilPath)
+    | "elemPath", [g, i] => do pure (.caller (.elemPath (← nat g) (← nat i)))
     | "setFloat", [g, n] => do pure (.caller (.setFloat (← nat g) (← int n)))
     | "setElem", [g, i, v] => do pure (.caller (.setElem (← nat g) (← nat i) (← nat v)))
     | "setElemType", [g, i, t] => do pure (.caller (.setElemType (← nat g) (← nat i) (← tysrc t)))
@@ -180,7 +181,16 @@ def layoutStr (st : St) : String :=
           (seen, a.2 ++ [toString id ++ ":" ++ toString len ++ "/" ++ toString cap ++ "@" ++ toString (seen.idxOf arr)])
         | _, _ => (a.1, a.2 ++ ["#bad"])) (acc.1, [])
       (r.1, acc.2 ++ [p.1 ++ "{" ++ " ".intercalate r.2 ++ "}"])
-  " ".intercalate (sets.foldl go ([], [])).2
+  let r := sets.foldl go ([], [])
+  let slices := (List.range st.gos.length).foldl (fun (a : List Addr × List String) i =>
+    match (st.gos[i]? : Option Word) with
+    | some (Word.slice arr _ len cap) =>
+      if cap = 0 then (a.1, a.2 ++ ["S" ++ toString i ++ ":" ++ toString len ++ "/0@-"])
+      else
+        let seen := if a.1.contains arr then a.1 else a.1 ++ [arr]
+        (seen, a.2 ++ ["S" ++ toString i ++ ":" ++ toString len ++ "/" ++ toString cap ++ "@" ++ toString (seen.idxOf arr)])
+    | _ => a) (r.1, [])
+  " ".intercalate (r.2 ++ slices.2)
 
 end HHeap
 
